@@ -1,6 +1,6 @@
 #!/bin/bash
 cd "$(dirname "$0")/.." 2>/dev/null
-for c in C18 C20 C17 C07 C12 C14 C19 C03 C06 C09 C11 C16 C13 C08 C05 C04 C02 C10 C15 C01; do
+for c in ${CHECKS:-C18 C20 C17 C07 C12 C14 C19 C03 C06 C09 C11 C16 C13 C08 C05 C04 C02 C10 C15 C01}; do
   s=$(date +%s); out=$(./check $c --tier thorough 2>&1); rc=$?; e=$(date +%s)
   echo "$c rc=$rc $((e-s))s $(echo "$out" | grep -c '^VIOLATION') violations :: $(echo "$out" | tail -1 | cut -c1-200)"
   echo "$out" | grep -A2 '^VIOLATION' | head -30
